@@ -847,7 +847,8 @@ impl Builder {
         self.frames
             .iter()
             .filter(|f| f.tpl == self.cur_t)
-            .all(|f| matches!(f.kind, Kind::Block | Kind::Capture))
+            // the Include frame is the included template's own top level, not a tag body
+            .all(|f| matches!(f.kind, Kind::Block | Kind::Capture | Kind::Include))
     }
 
     fn route(&mut self, r: Route) -> Result<(), Skip> {
